@@ -1,0 +1,104 @@
+//go:build verif
+
+package tree
+
+// Verification hooks, compiled only with -tags verif.
+//
+// verifPoint is called at the start of, and inside, the two analysis goroutines
+// of Compile (countRules = goroutine 1, checkRecursion = goroutine 2).
+//
+//   - PEG_VERIF_SCHED=<seed>: schedule perturbation. At every point the calling
+//     goroutine does nothing, yields, or sleeps 1-200 microseconds, chosen by a
+//     small PRNG owned by that goroutine (seeded from the seed and the
+//     goroutine number). No mutex and no atomic is used here on purpose: they
+//     would add happens-before edges between the two goroutines and could hide
+//     a data race in the code under test from the race detector. This state is
+//     only valid for one Compile per process (the command line case).
+//   - PEG_VERIF_TRACE=<file>: interleaving log for the determinism runs (not
+//     used together with the race detector, it synchronises): the order in
+//     which the two goroutines passed their points, run-length compressed, is
+//     appended to the file by verifJoin.
+
+import (
+	"fmt"
+	"os"
+	"runtime"
+	"strconv"
+	"strings"
+	"sync"
+	"time"
+)
+
+var (
+	verifSched    = os.Getenv("PEG_VERIF_SCHED")
+	verifTrace    = os.Getenv("PEG_VERIF_TRACE")
+	verifRand     [3]uint64
+	verifRandInit [3]bool
+	verifMu       sync.Mutex
+	verifLog      []string
+	verifPoints   [3]int
+)
+
+func verifPoint(goroutine int, site string) {
+	if verifTrace != "" {
+		verifMu.Lock()
+		verifPoints[goroutine]++
+		// only the first few hundred points matter for the signature
+		if len(verifLog) < 400 {
+			verifLog = append(verifLog, strconv.Itoa(goroutine)+site[:1])
+		}
+		verifMu.Unlock()
+	}
+	if verifSched == "" {
+		return
+	}
+	if !verifRandInit[goroutine] {
+		seed, _ := strconv.ParseUint(verifSched, 10, 64)
+		verifRand[goroutine] = seed*2654435761 + uint64(goroutine)*0x9E3779B97F4A7C15 + 1
+		verifRandInit[goroutine] = true
+	}
+	// xorshift64
+	x := verifRand[goroutine]
+	x ^= x << 13
+	x ^= x >> 7
+	x ^= x << 17
+	verifRand[goroutine] = x
+	switch x % 8 {
+	case 0, 1:
+		runtime.Gosched()
+	case 2:
+		time.Sleep(time.Duration(1+(x>>8)%200) * time.Microsecond)
+	}
+}
+
+func verifJoin() {
+	if verifTrace == "" {
+		return
+	}
+	verifMu.Lock()
+	defer verifMu.Unlock()
+	var sb strings.Builder
+	prev, n := "", 0
+	flush := func() {
+		if n > 0 {
+			fmt.Fprintf(&sb, "%s*%d ", prev, n)
+		}
+	}
+	for _, e := range verifLog {
+		if e == prev {
+			n++
+			continue
+		}
+		flush()
+		prev, n = e, 1
+	}
+	flush()
+	f, err := os.OpenFile(verifTrace, os.O_APPEND|os.O_CREATE|os.O_WRONLY, 0o644)
+	if err != nil {
+		return
+	}
+	fmt.Fprintf(f, "%s| points g1=%d g2=%d\n", sb.String(), verifPoints[1], verifPoints[2])
+	f.Close()
+	verifLog = nil
+	verifPoints = [3]int{}
+}
